@@ -17,6 +17,15 @@
  *   (PUT /v1/objects/<plural>/<name> with a JSON body, DELETE /v1/objects/<plural>/<name>[?cascade=1]) with an ApiUser
  *   holding permission "*"; cfg= is then computed by the harness with the same call the handler makes; ok=1 HTTP 200,
  *   ok=0 HTTP 500, ok=x anything else; delete: found=0 ok=- on HTTP 404.
+ *   Process layout: the process started by the user (the parent) only generates or reads operation lines; it hands them,
+ *   one at a time and in batches of whole cases, to exec'ed worker processes (`h_c17 worker`, each with its own scratch
+ *   data directory) and forwards what they print. If a worker dies the parent prints `X <signal or exit code> <op line>`
+ *   in place of that operation's result, drops the rest of that case and goes on with the next case in a new worker
+ *   (124 = no answer within the time limit). `ops` mode treats an `X <n> <op line>` line as that op line.
+ *   After a create whose parents= names an object that is not the live registered object of that name (F-C17f: a
+ *   deleted/rolled-back Service still in its host's service map) the worker itself executes and prints
+ *   `delete <Type> <nameHex> 1` for the object just created; if the next input line is exactly that line it is skipped.
+ *   create lines carry children=<DependencyGraph::GetChildren> directly after parents=.
  *   ok: 1 true, 0 false, x exception escaped, - no call, c call not made because it is known to crash /repo (see WouldCrash)
  *   <state> = objs=<Type:nameHex:api:active:hash,...> items=<Type:nameHex,...> files=<hex,...> glob=<hash>
  *
@@ -47,6 +56,10 @@
 #include "base/io-engine.hpp"
 #include "base/tlsstream.hpp"
 #include <boost/asio/spawn.hpp>
+#include <fcntl.h>
+#include <poll.h>
+#include <signal.h>
+#include <sys/wait.h>
 #include <boost/beast/http.hpp>
 #include <boost/filesystem.hpp>
 #include <algorithm>
@@ -57,6 +70,13 @@
 
 using namespace icinga;
 using namespace vh;
+
+namespace vh {
+typedef std::map<String, intrusive_ptr<Service> > HostServiceMap;
+VH_ROB_MEMBER(HostServicesTag, Host, HostServiceMap, m_Services)
+VH_ROB_MEMBER(HostServicesMutexTag, Host, std::mutex, m_ServicesMutex)
+VH_ROB_STATIC(UnnamedItemsTag, std::vector<ConfigItem::Ptr> *type, ConfigItem, m_UnnamedItems)
+}
 
 /* ---------------------------------------------------------------- encoding */
 
@@ -352,6 +372,12 @@ static std::string State()
 		for (const ConfigItem::Ptr& item : ConfigItem::GetItems(type))
 			if (!item->IsAbstract())
 				ns.push_back(item->GetName().GetData());
+		/* items with composite names are not registered by name; what is (still) queued as unnamed item is listed too */
+		try {
+			for (const ConfigItem::Ptr& item : *get(vh::UnnamedItemsTag()))
+				if (item && !item->IsAbstract() && item->GetType() == type)
+					ns.push_back(item->GetName().GetData());
+		} catch (...) { }
 		std::sort(ns.begin(), ns.end());
 		for (auto& n : ns)
 			items.push_back(tn + ":" + Hex(n));
@@ -409,6 +435,9 @@ template Comment "tpl" { persistent = true }
 template Downtime "tpl" { fixed = true }
 template Notification "tpl" { interval = 77 }
 template Dependency "tpl" { disable_checks = true }
+apply Service "c17-ap-ok" { check_command = "scc"; assign where host.vars.c17_apply }
+apply Service "c17-ap-cmd" { check_command = host.vars.c17_cmd; assign where host.vars.c17_apply && host.vars.c17_cmd }
+apply Notification "c17-ap-n" to Host { command = "snc"; users = [ "su" ]; assign where host.vars.c17_notify }
 globals.c17_canary = "intact"
 )CONF";
 
@@ -454,10 +483,23 @@ static void LoadStatic()
 
 static bool InitHttp();
 
-static void Setup()
+static void SetupBase()
 {
 	SetNow(1700000000.0);
 	InitIcinga();
+
+	std::vector<std::string> names(std::begin(l_TypeNames), std::end(l_TypeNames));
+	std::sort(names.begin(), names.end());
+	for (auto& n : names) {
+		Type::Ptr t = Type::GetByName(n);
+		if (!t || !dynamic_cast<ConfigType *>(t.get()))
+			Die("unknown type", n);
+		l_Types.push_back(t);
+	}
+}
+
+static void SetupWorker()
+{
 
 	std::string base = "/verif/_work/c17";
 	Utility::MkDirP(base, 0700);
@@ -473,15 +515,6 @@ static void Setup()
 		Logger::SetConsoleLogSeverity(LogDebug);
 	}
 	l_Flush = getenv("VERIF_C17_FLUSH") != nullptr;
-
-	std::vector<std::string> names(std::begin(l_TypeNames), std::end(l_TypeNames));
-	std::sort(names.begin(), names.end());
-	for (auto& n : names) {
-		Type::Ptr t = Type::GetByName(n);
-		if (!t || !dynamic_cast<ConfigType *>(t.get()))
-			Die("unknown type", n);
-		l_Types.push_back(t);
-	}
 
 	LoadStatic();
 	InitHttp();
@@ -526,6 +559,27 @@ static void ForceRemove(const ConfigObject::Ptr& obj)
 	} catch (...) { }
 }
 
+/* Is the object on a cycle of the dependency graph (e.g. a TimePeriod which includes itself)? A cascading delete of
+ * such an object recurses until the stack overflows. */
+static bool OnCycle(const ConfigObject::Ptr& start)
+{
+	std::set<ConfigObject *> seen;
+	std::vector<ConfigObject::Ptr> todo = DependencyGraph::GetChildren(start);
+	while (!todo.empty()) {
+		ConfigObject::Ptr o = todo.back();
+		todo.pop_back();
+		if (!o)
+			continue;
+		if (o == start)
+			return true;
+		if (!seen.insert(o.get()).second)
+			continue;
+		for (const ConfigObject::Ptr& c : DependencyGraph::GetChildren(o))
+			todo.push_back(c);
+	}
+	return false;
+}
+
 /* Removes everything a previous case left behind, so that cases are independent. */
 static void Cleanup()
 {
@@ -544,6 +598,12 @@ static void Cleanup()
 			if (ctype->GetObject(obj->GetName()) != obj)
 				continue; /* went away with a cascade */
 			bool done = false;
+			bool cyclic = false;
+			try { cyclic = OnCycle(obj); } catch (...) { }
+			if (cyclic) {
+				ForceRemove(obj);
+				continue;
+			}
 			if (round < 3 && obj->GetPackage() == "_api") {
 				try {
 					Array::Ptr errors = new Array();
@@ -563,6 +623,30 @@ static void Cleanup()
 			try { item->Unregister(); } catch (...) { }
 		}
 	}
+
+	try {
+		std::vector<ConfigItem::Ptr> unnamed = *get(vh::UnnamedItemsTag());
+		for (const ConfigItem::Ptr& item : unnamed)
+			if (item && !item->IsAbstract())
+				item->Unregister();
+	} catch (...) { }
+
+	/* services which were deleted or rolled back stay in their host's service map (F-C17f): drop them from the hosts
+	 * that survive the clean-up, else a later case (or only a later case in the same worker) would find them */
+	try {
+		for (const ConfigObject::Ptr& obj : dynamic_cast<ConfigType *>(TypeOf("Host").get())->GetObjects()) {
+			Host::Ptr host = static_pointer_cast<Host>(obj);
+			std::unique_lock<std::mutex> lock((*host).*get(vh::HostServicesMutexTag()));
+			HostServiceMap& m = (*host).*get(vh::HostServicesTag());
+			for (auto it = m.begin(); it != m.end(); ) {
+				ConfigObject::Ptr reg = it->second ? dynamic_cast<ConfigType *>(TypeOf("Service").get())->GetObject(it->second->GetName()) : nullptr;
+				if (!it->second || reg != it->second)
+					it = m.erase(it);
+				else
+					++it;
+			}
+		}
+	} catch (...) { }
 
 	/* left-over files */
 	namespace fs = boost::filesystem;
@@ -807,6 +891,9 @@ static void BeginCase(long long n)
 	Emit("C " + std::to_string(n) + " | " + State());
 }
 
+static std::string l_SkipLine; /* the automatic delete just executed: skipped if it is the next input line */
+static void DoDelete(const Type::Ptr& type, const std::string& name, bool cascade, bool viaHttp);
+
 /* /repo segfaults (Service::OnAllConfigLoaded, null host) when a Service is created for a host name that has a Host
  * configuration item but no Host object of that name; that state is reachable by creating a Host with the attribute
  * `__name` set to a different name. The harness does not make the call in that situation (ok=c). */
@@ -889,7 +976,7 @@ static void DoCreate(const Type::Ptr& type, const std::string& name, bool ioe, c
 		haveCfg = false;
 	}
 
-	if (haveCfg && WouldCrash(type, fullName, attrs)) {
+	if (haveCfg && getenv("VERIF_C17_GUARD") && WouldCrash(type, fullName, attrs)) { /* off by default: workers are crash-isolated, the death is reported as an X line */
 		ok = "c";
 	} else if (viaHttp) {
 		std::string body = "{\"attrs\":";
@@ -924,7 +1011,8 @@ static void DoCreate(const Type::Ptr& type, const std::string& name, bool ioe, c
 
 	try { Application::GetTP().Restart(); } catch (...) { }
 
-	std::string parents = "-", file = "-", oattrs = "-";
+	std::string parents = "-", children = "-", file = "-", oattrs = "-";
+	bool zombieParent = false;
 	ConfigObject::Ptr obj;
 	try {
 		obj = dynamic_cast<ConfigType *>(type.get())->GetObject(fullName);
@@ -933,13 +1021,28 @@ static void DoCreate(const Type::Ptr& type, const std::string& name, bool ioe, c
 	if (obj) {
 		try {
 			std::vector<std::string> ps;
-			for (const ConfigObject::Ptr& p : DependencyGraph::GetParents(obj))
-				if (p)
-					ps.push_back(std::string(p->GetReflectionType()->GetName().GetData()) + ":" + Hex(p->GetName().GetData()));
+			for (const ConfigObject::Ptr& p : DependencyGraph::GetParents(obj)) {
+				if (!p)
+					continue;
+				ps.push_back(std::string(p->GetReflectionType()->GetName().GetData()) + ":" + Hex(p->GetName().GetData()));
+				auto *ptype = dynamic_cast<ConfigType *>(p->GetReflectionType().get());
+				if (!ptype || ptype->GetObject(p->GetName()) != p)
+					zombieParent = true;
+			}
 			std::sort(ps.begin(), ps.end());
 			parents = Join(ps);
 		} catch (...) {
 			parents = "!";
+		}
+		try {
+			std::vector<std::string> cs;
+			for (const ConfigObject::Ptr& c : DependencyGraph::GetChildren(obj))
+				if (c)
+					cs.push_back(std::string(c->GetReflectionType()->GetName().GetData()) + ":" + Hex(c->GetName().GetData()));
+			std::sort(cs.begin(), cs.end());
+			children = Join(cs);
+		} catch (...) {
+			children = "!";
 		}
 		try {
 			file = Hex(RelToStage(obj->GetDebugInfo().Path.GetData()));
@@ -983,7 +1086,14 @@ static void DoCreate(const Type::Ptr& type, const std::string& name, bool ioe, c
 	else st[3]++;
 
 	Emit(head + " | now=" + std::to_string(now) + " parts=" + parts + " cfg=" + cfg + " ok=" + ok + " parents=" + parents +
-		" file=" + file + " attrs=" + oattrs + " " + State());
+		" children=" + children + " file=" + file + " attrs=" + oattrs + " " + State());
+
+	if (zombieParent && obj) {
+		/* containment of F-C17f: the object hangs on a parent which is no longer registered; take it away again */
+		obj.reset();
+		l_SkipLine = "delete " + tn + " " + NameTok(name) + " 1";
+		DoDelete(type, name, true, false);
+	}
 }
 
 static void DoDelete(const Type::Ptr& type, const std::string& name, bool cascade, bool viaHttp)
@@ -1077,6 +1187,13 @@ static void ExecLine(std::string line)
 	if (line.empty())
 		return;
 
+	{
+		std::string skip;
+		skip.swap(l_SkipLine);
+		if (!skip.empty() && line == skip)
+			return;
+	}
+
 	std::vector<std::string> tok = SplitSp(line);
 	if (tok[0] == "C") {
 		if (tok.size() < 2) { fprintf(stderr, "bad C line\n"); return; }
@@ -1119,25 +1236,250 @@ static void ExecLine(std::string line)
 	/* everything else (T lines, comments) is skipped */
 }
 
+/* ---------------------------------------------------------------- parent side: workers */
+
+struct Worker {
+	pid_t pid = -1;
+	int in = -1, out = -1;   /* our ends: write to the worker's stdin, read its stdout */
+	std::string buf, dir;
+	int cases = 0;
+};
+
+static Worker l_W;
+static int l_Batch = 60;
+static bool l_DropCase = false;
+static long l_PX = 0, l_PAuto = 0, l_PHttp = 0, l_PCases = 0, l_PCreate = 0, l_PDelete = 0, l_PApplyOk = 0, l_PApplyFail = 0, l_PZombie = 0;
+static long l_PDel[4] = { 0, 0, 0, 0 }; /* ok, refused, missing, other */
+static std::map<std::string, std::array<long, 5>> l_PStat;
+
+/* Reads one line of the worker's output; false: end of file, error or no answer in time (timedOut set). */
+static bool WorkerLine(std::string& line, bool& timedOut)
+{
+	timedOut = false;
+	for (;;) {
+		size_t nl = l_W.buf.find('\n');
+		if (nl != std::string::npos) {
+			line = l_W.buf.substr(0, nl);
+			l_W.buf.erase(0, nl + 1);
+			return true;
+		}
+		struct pollfd pfd = { l_W.out, POLLIN, 0 };
+		int pr = poll(&pfd, 1, 120000);
+		if (pr == 0) { timedOut = true; return false; }
+		if (pr < 0) { if (errno == EINTR) continue; return false; }
+		char tmp[65536];
+		ssize_t n = read(l_W.out, tmp, sizeof tmp);
+		if (n < 0 && errno == EINTR) continue;
+		if (n <= 0) return false;
+		l_W.buf.append(tmp, (size_t)n);
+	}
+}
+
+/* Collects the worker's death (kills it first if asked); returns the signal number or the exit code. */
+static int ReapWorker(bool kill9)
+{
+	if (l_W.pid < 0)
+		return 0;
+	if (kill9)
+		kill(l_W.pid, SIGKILL);
+	if (l_W.in >= 0) close(l_W.in);
+	if (l_W.out >= 0) close(l_W.out);
+	int status = 0;
+	while (waitpid(l_W.pid, &status, 0) < 0 && errno == EINTR) { }
+	if (!l_W.dir.empty() && l_W.dir.compare(0, 17, "/verif/_work/c17/") == 0) {
+		try { Utility::RemoveDirRecursive(l_W.dir); } catch (...) { }
+	}
+	l_W = Worker();
+	if (WIFSIGNALED(status)) return WTERMSIG(status);
+	return WEXITSTATUS(status);
+}
+
+static void StopWorker()
+{
+	if (l_W.pid < 0)
+		return;
+	close(l_W.in);
+	l_W.in = -1;
+	/* the worker cleans up and removes its directory on end of input */
+	std::string line;
+	bool to;
+	while (WorkerLine(line, to)) { }
+	int code = ReapWorker(to);
+	if (code != 0)
+		fprintf(stderr, "WARNING a worker ended with %d during its final clean-up\n", code);
+}
+
+static void StartWorker()
+{
+	int toW[2], fromW[2];
+	if (pipe2(toW, O_CLOEXEC) < 0 || pipe2(fromW, O_CLOEXEC) < 0) { perror("pipe"); _exit(2); }
+	fflush(stdout);
+	pid_t pid = fork();
+	if (pid < 0) { perror("fork"); _exit(2); }
+	if (pid == 0) {
+		dup2(toW[0], 0);
+		dup2(fromW[1], 1);
+		char a0[] = "h_c17", a1[] = "worker";
+		char *args[] = { a0, a1, nullptr };
+		execv("/proc/self/exe", args);
+		_exit(127);
+	}
+	close(toW[0]);
+	close(fromW[1]);
+	l_W = Worker();
+	l_W.pid = pid;
+	l_W.in = toW[1];
+	l_W.out = fromW[0];
+	/* handshake: `D <data directory>` then the sentinel */
+	std::string line;
+	bool to;
+	for (;;) {
+		if (!WorkerLine(line, to)) {
+			int code = ReapWorker(to);
+			printf("FATAL worker did not start (%d)\n", code);
+			fflush(stdout);
+			fprintf(stderr, "FATAL worker did not start (%d)\n", code);
+			_exit(3);
+		}
+		if (line == ".")
+			break;
+		if (line.compare(0, 2, "D ") == 0)
+			l_W.dir = line.substr(2);
+		else if (line.compare(0, 5, "FATAL") == 0)
+			fprintf(stderr, "%s\n", line.c_str());
+	}
+}
+
+static std::string FieldOf(const std::string& line, const char *key)
+{
+	std::string k = std::string(" ") + key + "=";
+	size_t p = line.find(k, line.find(" | ") == std::string::npos ? 0 : line.find(" | "));
+	if (p == std::string::npos)
+		return "";
+	p += k.size();
+	size_t e = line.find(' ', p);
+	return line.substr(p, e == std::string::npos ? std::string::npos : e - p);
+}
+
+static void Account(const std::string& op, const std::string& out, int idx)
+{
+	if (out.compare(0, 7, "create ") == 0) {
+		l_PCreate++;
+		std::string tn = out.substr(7, out.find(' ', 7) - 7);
+		std::string ok = FieldOf(out, "ok"), attrs = FieldOf(out, "attrs");
+		auto& st = l_PStat[tn];
+		if (ok == "1" && attrs != "-") st[0]++;
+		else if (ok == "1") st[4]++;
+		else if (ok == "0") st[1]++;
+		else if (ok == "x") st[2]++;
+		else st[3]++;
+		if (op.find(" http") != std::string::npos && op.rfind(" http") == op.size() - 5) l_PHttp++;
+		if (tn == "Host" && (op.find("k6331375f6170706c79;") != std::string::npos || op.find("k6331375f6e6f74696679;") != std::string::npos)) {
+			if (ok == "1" && attrs != "-") l_PApplyOk++; else l_PApplyFail++;
+		}
+	} else if (out.compare(0, 7, "delete ") == 0) {
+		if (idx > 0) { l_PAuto++; return; }
+		l_PDelete++;
+		std::string ok = FieldOf(out, "ok"), found = FieldOf(out, "found");
+		if (found == "0") l_PDel[2]++;
+		else if (ok == "1") l_PDel[0]++;
+		else if (ok == "0") l_PDel[1]++;
+		else l_PDel[3]++;
+		if (op.size() > 5 && op.rfind(" http") == op.size() - 5) l_PHttp++;
+	}
+}
+
+/* Hands one operation line (no observation part) to a worker and forwards what it prints. */
+static void Submit(const std::string& op)
+{
+	bool isCase = op.compare(0, 2, "C ") == 0;
+	if (isCase) {
+		l_DropCase = false;
+		l_PCases++;
+		if (l_W.pid >= 0 && l_W.cases >= l_Batch)
+			StopWorker();
+	} else if (l_DropCase) {
+		return;
+	}
+	if (l_W.pid < 0)
+		StartWorker();
+	if (isCase)
+		l_W.cases++;
+
+	std::string msg = op + "\n";
+	size_t off = 0;
+	bool dead = false, to = false;
+	while (off < msg.size()) {
+		ssize_t n = write(l_W.in, msg.data() + off, msg.size() - off);
+		if (n < 0 && errno == EINTR) continue;
+		if (n <= 0) { dead = true; break; }
+		off += (size_t)n;
+	}
+	std::vector<std::string> outs;
+	if (!dead) {
+		std::string line;
+		for (;;) {
+			if (!WorkerLine(line, to)) { dead = true; break; }
+			if (line == ".")
+				break;
+			outs.push_back(line);
+		}
+	}
+	if (dead) {
+		/* what the worker printed for this operation before it died is not a result */
+		int code = ReapWorker(to);
+		if (to) code = 124;
+		Emit("X " + std::to_string(code) + " " + op);
+		l_PX++;
+		l_DropCase = true;
+		return;
+	}
+	for (size_t i = 0; i < outs.size(); i++) {
+		Account(op, outs[i], (int)i);
+		Emit(outs[i]);
+	}
+}
+
+/* Strips a line of a file down to its operation part; empty if it is not an operation. */
+static std::string OpPart(std::string line)
+{
+	while (!line.empty() && (line.back() == '\n' || line.back() == '\r'))
+		line.pop_back();
+	if (line.compare(0, 2, "X ") == 0) {
+		size_t sp = line.find(' ', 2);
+		if (sp == std::string::npos)
+			return "";
+		line = line.substr(sp + 1);
+	}
+	size_t bar = line.find(" | ");
+	if (bar != std::string::npos)
+		line.resize(bar);
+	while (!line.empty() && line.back() == ' ')
+		line.pop_back();
+	if (line.compare(0, 2, "C ") == 0 || line.compare(0, 7, "create ") == 0 || line.compare(0, 7, "delete ") == 0)
+		return line;
+	return "";
+}
+
 /* wantHttp is honoured only if the operation can be expressed as a request */
 static void OpCreate(const std::string& type, const std::string& name, bool ioe, const Array::Ptr& templates, const Dictionary::Ptr& attrs,
 	bool wantHttp = false)
 {
 	Array::Ptr t = templates ? templates : Array::Ptr(new Array());
 	Dictionary::Ptr a = attrs ? attrs : Dictionary::Ptr(new Dictionary());
-	bool viaHttp = wantHttp && l_HttpOk && HttpName(name) && JsonExpressible(t) && JsonExpressible(a);
-	ExecLine("create " + type + " " + NameTok(name) + " " + (ioe ? "1" : "0") + " " + EncS(t) + " " + EncS(a) + (viaHttp ? " http" : ""));
+	bool viaHttp = wantHttp && HttpName(name) && JsonExpressible(t) && JsonExpressible(a);
+	Submit("create " + type + " " + NameTok(name) + " " + (ioe ? "1" : "0") + " " + EncS(t) + " " + EncS(a) + (viaHttp ? " http" : ""));
 }
 
 static void OpDelete(const std::string& type, const std::string& name, bool cascade, bool wantHttp = false)
 {
-	bool viaHttp = wantHttp && l_HttpOk && HttpName(name);
-	ExecLine("delete " + type + " " + NameTok(name) + " " + (cascade ? "1" : "0") + (viaHttp ? " http" : ""));
+	bool viaHttp = wantHttp && HttpName(name);
+	Submit("delete " + type + " " + NameTok(name) + " " + (cascade ? "1" : "0") + (viaHttp ? " http" : ""));
 }
 
 static void OpCase(long long n)
 {
-	ExecLine("C " + std::to_string(n));
+	Submit("C " + std::to_string(n));
 }
 
 /* ---------------------------------------------------------------- generator */
@@ -1337,16 +1679,22 @@ static std::string GenName(Rng& r)
 	return s;
 }
 
-static bool Exists(const std::string& type, const std::string& name)
+typedef std::pair<std::string, std::string> GKey; /* (type, full name) */
+
+/* the objects of the static configuration, as the generator knows them (it never looks at a worker's state) */
+static const std::vector<GKey>& GenStatic()
 {
-	Type::Ptr t = TypeOf(type);
-	if (!t)
-		return false;
-	try {
-		return dynamic_cast<ConfigType *>(t.get())->GetObject(String(name)) != nullptr;
-	} catch (...) {
-		return false;
-	}
+	static const std::vector<GKey> v = {
+		{ "ApiUser", "sa" }, { "CheckCommand", "scc" }, { "Endpoint", "se" }, { "EventCommand", "sec" }, { "Host", "sh" }, { "Host", "sh2" },
+		{ "HostGroup", "shg" }, { "NotificationCommand", "snc" }, { "Service", "sh!ss" }, { "Service", "sh2!ss2" }, { "ServiceGroup", "ssg" },
+		{ "TimePeriod", "stp" }, { "User", "su" }, { "UserGroup", "sug" }, { "Zone", "sz" }
+	};
+	return v;
+}
+
+static bool IsGenStatic(const GKey& k)
+{
+	return std::find(GenStatic().begin(), GenStatic().end(), k) != GenStatic().end();
 }
 
 struct GenCtx {
@@ -1355,7 +1703,46 @@ struct GenCtx {
 	std::vector<std::pair<std::string, std::string>> att;          /* (type, full name) of every create so far */
 	std::vector<std::pair<std::string, std::string>> svcs;         /* (host, short name) of every Service create so far */
 
+	/* the generator's own book-keeping of what it believes exists (wrong beliefs only produce refused operations) */
+	std::set<GKey> live;
+	std::map<GKey, std::vector<GKey>> deps;                        /* believed-live object -> what it refers to */
+	std::vector<GKey> curDeps;                                     /* references of the create being built */
+	bool curBad = false;                                           /* the create being built is meant to fail */
+	int curApply = -1;                                             /* apply variant of the Host create being built */
+	std::string forceName;                                         /* next Host create: this name ... */
+	int forceApply = -1;                                           /* ... and this apply variant */
+
 	explicit GenCtx(Rng& rng) : r(rng) { }
+
+	bool Exists(const std::string& type, const std::string& name) const
+	{
+		GKey k(type, name);
+		return live.count(k) || IsGenStatic(k);
+	}
+
+	std::vector<GKey> Dependents(const GKey& k) const
+	{
+		std::vector<GKey> v;
+		for (auto& l : live) {
+			auto it = deps.find(l);
+			if (it != deps.end() && std::find(it->second.begin(), it->second.end(), k) != it->second.end())
+				v.push_back(l);
+		}
+		return v;
+	}
+
+	void BelieveDelete(const GKey& k, bool cascade)
+	{
+		if (!live.count(k))
+			return;
+		std::vector<GKey> d = Dependents(k);
+		if (!d.empty() && !cascade)
+			return;
+		live.erase(k);
+		deps.erase(k);
+		for (auto& c : d)
+			BelieveDelete(c, true);
+	}
 
 	std::string PoolName() { return pool[r.below(pool.size())]; }
 
@@ -1374,17 +1761,22 @@ struct GenCtx {
 		std::vector<std::string> v = Names(type);
 		int x = (int)r.below(100);
 		if (r.below(100) < 88) {
-			/* the generator runs in-process: prefer names whose object really exists at this point */
+			/* prefer names whose object is believed to exist at this point */
 			std::vector<std::string> w;
 			for (auto& n : v)
 				if (Exists(type, n))
 					w.push_back(n);
 			v.swap(w);
 		}
-		if (x < missPct)
+		if (x < missPct) {
+			curBad = true;
 			return missing;
-		if (!v.empty() && x < 65)
-			return v[r.below(v.size())];
+		}
+		if (!v.empty() && x < 65) {
+			std::string n = v[r.below(v.size())];
+			curDeps.emplace_back(type, n);
+			return n;
+		}
 		return stat;
 	}
 
@@ -1393,18 +1785,22 @@ struct GenCtx {
 	{
 		if (r.coin())
 			return { Ref("Host", "sh", "nohost"), "" };
-		std::vector<std::pair<std::string, std::string>> v = svcs;
-		if (r.below(100) < 88) {
-			std::vector<std::pair<std::string, std::string>> w;
-			for (auto& s : v)
-				if (Exists("Service", s.first + "!" + s.second))
-					w.push_back(s);
-			v.swap(w);
+		std::vector<std::pair<std::string, std::string>> v, gone;
+		for (auto& s : svcs)
+			(Exists("Service", s.first + "!" + s.second) ? v : gone).push_back(s);
+		/* a service which was deleted, or whose creation failed: the trigger of F-C17f */
+		if (!gone.empty() && r.below(100) < 22)
+			return gone[r.below(gone.size())];
+		if (!v.empty() && r.below(100) < 65) {
+			auto s = v[r.below(v.size())];
+			curDeps.emplace_back("Host", s.first);
+			curDeps.emplace_back("Service", s.first + "!" + s.second);
+			return s;
 		}
-		if (!v.empty() && r.below(100) < 65)
-			return v[r.below(v.size())];
-		if (r.below(100) < 6)
+		if (r.below(100) < 6) {
+			curBad = true;
 			return { "sh", "nosvc" };
+		}
 		return { "sh", "ss" };
 	}
 };
@@ -1463,7 +1859,14 @@ static std::string GenCreate(GenCtx& g, const std::string& type, Dictionary::Ptr
 	a = new Dictionary();
 	ioe = false;
 	templates = new Array();
+	g.curDeps.clear();
+	g.curBad = false;
+	g.curApply = -1;
 	std::string sn = g.PoolName();
+	if (type == "Host" && !g.forceName.empty()) {
+		sn = g.forceName;
+		g.forceName.clear();
+	}
 	std::string full = sn;
 
 	auto str = [&](const char *key, int pct) {
@@ -1478,8 +1881,7 @@ static std::string GenCreate(GenCtx& g, const std::string& type, Dictionary::Ptr
 	if (type == "Host" || type == "Service") {
 		if (type == "Service") {
 			std::string h = g.Ref("Host", "sh", "nohost");
-			if (WouldCrash(TypeOf("Service"), String(h + "!" + sn), nullptr))
-				h = "sh"; /* see WouldCrash() */
+			g.curDeps.emplace_back("Host", h);
 			full = h + "!" + sn;
 			g.svcs.emplace_back(h, sn);
 		}
@@ -1535,8 +1937,11 @@ static std::string GenCreate(GenCtx& g, const std::string& type, Dictionary::Ptr
 		}
 		if (r.below(100) < 15)
 			a->Set("prefer_includes", r.coin());
-		if (r.below(100) < 15)
-			a->Set(r.coin() ? "includes" : "excludes", StrArray({ g.Ref("TimePeriod", "stp", "notp") }));
+		if (r.below(100) < 15) {
+			/* never the period itself: a cascading delete of a self-including period overflows the stack of /repo */
+			std::string tp = g.Ref("TimePeriod", "stp", "notp");
+			a->Set(r.coin() ? "includes" : "excludes", StrArray({ tp == sn ? std::string("stp") : tp }));
+		}
 	} else if (type == "Notification") {
 		auto c = g.Checkable();
 		full = c.first + "!" + (c.second.empty() ? "" : c.second + "!") + sn;
@@ -1597,8 +2002,10 @@ static std::string GenCreate(GenCtx& g, const std::string& type, Dictionary::Ptr
 		if (r.below(100) < 50) a->Set("fixed", r.coin());
 		if (r.below(100) < 15) a->Set("entry_time", (double)(1700000000LL - r.range(0, 5000)));
 	} else if (type == "Zone") {
-		if (r.below(100) < 30)
-			a->Set("parent", String(g.Ref("Zone", "sz", "nozone")));
+		if (r.below(100) < 30) {
+			std::string z = g.Ref("Zone", "sz", "nozone");
+			a->Set("parent", String(z == sn ? std::string("sz") : z));
+		}
 		if (r.below(100) < 30) {
 			std::vector<std::string> eps = g.Names("Endpoint");
 			if (!eps.empty() && r.below(100) < 80)
@@ -1652,9 +2059,42 @@ static std::string GenCreate(GenCtx& g, const std::string& type, Dictionary::Ptr
 		} else if (v < 89) {
 			/* vars of a non-dictionary kind */
 			a->Set("vars", GenValue(r, 3));
+			g.curBad = true;
 		}
 	} else if (r.below(100) < 10) {
 		a->Set("vars", GenVars(r)); /* the type has no such field */
+		g.curBad = true;
+	}
+
+	/* hosts the static apply rules match: c17_apply -> Service c17-ap-ok, with c17_cmd also Service c17-ap-cmd (invalid
+	 * if the command does not exist: the whole create has to fail and leave nothing), c17_notify -> Notification c17-ap-n */
+	if (type == "Host") {
+		int variant = -1;
+		if (g.forceApply >= 0) {
+			variant = g.forceApply;
+			g.forceApply = -1;
+		} else if (r.below(100) < 9)
+			variant = (int)r.below(6);
+		if (variant >= 0) {
+			std::vector<String> rm;
+			{
+				ObjectLock olock(a);
+				for (const Dictionary::Pair& kv : a)
+					if (kv.first == "vars" || kv.first.SubStr(0, 5) == "vars.")
+						rm.push_back(kv.first);
+			}
+			for (const String& k : rm)
+				a->Remove(k);
+			Dictionary::Ptr vars = new Dictionary({ { "os", "Linux" } });
+			if (variant != 4) vars->Set("c17_apply", true);
+			if (variant == 1 || variant == 5) vars->Set("c17_cmd", "scc");
+			if (variant == 2) vars->Set("c17_cmd", "nosuch-cmd");
+			if (variant == 3 || variant == 4 || variant == 5) vars->Set("c17_notify", true);
+			a->Set("vars", vars);
+			g.curApply = variant;
+			if (variant == 2)
+				g.curBad = true;
+		}
 	}
 
 	/* dotted access into a typed dictionary field */
@@ -1664,6 +2104,7 @@ static std::string GenCreate(GenCtx& g, const std::string& type, Dictionary::Ptr
 	/* invalid top-level keys */
 	int inv = (int)r.below(100);
 	if (inv < 8) {
+		g.curBad = true;
 		switch (r.below(8)) {
 			case 0: case 1: a->Set("nosuch", GenValue(r, 3)); break;
 			case 2: a->Set(type == "Host" || type == "Service" ? "last_check" : "active", 1.0); break;
@@ -1678,6 +2119,7 @@ static std::string GenCreate(GenCtx& g, const std::string& type, Dictionary::Ptr
 	int io = (int)r.below(100);
 	if (io < 5) {
 		ioe = true;
+		g.curBad = true;
 		if (type == "Host" || type == "Service")
 			a->Set("check_command", "nocmd");
 		else if (type == "Notification")
@@ -1705,7 +2147,10 @@ static std::string GenCreate(GenCtx& g, const std::string& type, Dictionary::Ptr
 		templates->Add(t[r.below(6)]);
 		if (r.coin())
 			templates->Add("tpl");
+		g.curBad = true;
 	}
+	if (type == "Endpoint" || (tp < 8 && (type == "Zone" || type == "ApiUser")))
+		g.curBad = true;
 
 	/* composite names with an empty '!'-token, or whose parts do not compose to the same name again, only in the prelude */
 	if (auto *nc = dynamic_cast<NameComposer *>(TypeOf(type).get())) {
@@ -1768,6 +2213,14 @@ static const char *PickType(Rng& r, bool haveHost)
 	return "Host";
 }
 
+static bool GenNameOk(const std::string& type, const std::string& full)
+{
+	if (full.empty() || full.size() > 200 || full.find('\0') != std::string::npos)
+		return false;
+	bool composite = type == "Service" || type == "Notification" || type == "Dependency" || type == "Comment" || type == "Downtime";
+	return composite || full.find('!') == std::string::npos;
+}
+
 static void GenCase(Rng& r, long long n)
 {
 	OpCase(n);
@@ -1782,30 +2235,56 @@ static void GenCase(Rng& r, long long n)
 		if (!del) {
 			bool haveHost = !g.Names("Host").empty();
 			std::string type = PickType(r, haveHost);
+			if (!g.forceName.empty()) {
+				/* re-create the host whose apply-generated service was invalid */
+				if (r.below(100) < 70)
+					type = "Host";
+				else {
+					g.forceName.clear();
+					g.forceApply = -1;
+				}
+			}
 			Dictionary::Ptr attrs;
 			Array::Ptr templates;
 			bool ioe;
 			std::string full = GenCreate(g, type, attrs, ioe, templates);
 			bool wantHttp = r.below(100) < 13;
 			OpCreate(type, full, ioe, templates, attrs, wantHttp);
+
+			GKey k(type, full);
+			bool depsOk = true;
+			for (auto& d : g.curDeps)
+				if (!g.Exists(d.first, d.second))
+					depsOk = false;
+			if (!g.curBad && depsOk && GenNameOk(type, full) && !g.live.count(k)) {
+				g.live.insert(k);
+				g.deps[k] = g.curDeps;
+				if (type == "Host" && g.curApply >= 0) {
+					auto child = [&](const char *t, const std::string& nm) {
+						GKey c(t, full + "!" + nm);
+						g.live.insert(c);
+						g.deps[c] = { k };
+						if (!strcmp(t, "Service"))
+							g.svcs.emplace_back(full, nm);
+					};
+					if (g.curApply != 4) child("Service", "c17-ap-ok");
+					if (g.curApply == 1 || g.curApply == 5) child("Service", "c17-ap-cmd");
+					if (g.curApply >= 3) child("Notification", "c17-ap-n");
+				}
+			}
+			if (type == "Host" && g.curApply == 2 && GenNameOk(type, full)) {
+				g.forceName = full;
+				g.forceApply = (int)r.below(2);
+			}
 			continue;
 		}
 		int k = (int)r.below(100);
 		std::string type, name;
-		/* objects created through the API which exist right now, and those among them other objects depend on */
-		std::vector<std::pair<std::string, std::string>> live, liveParents;
-		for (const Type::Ptr& t : l_Types) {
-			std::vector<ConfigObject::Ptr> objs = dynamic_cast<ConfigType *>(t.get())->GetObjects();
-			std::sort(objs.begin(), objs.end(), [](const ConfigObject::Ptr& a, const ConfigObject::Ptr& b) { return a->GetName() < b->GetName(); });
-			for (const ConfigObject::Ptr& o : objs) {
-				std::pair<std::string, std::string> e(t->GetName().GetData(), o->GetName().GetData());
-				if (l_Static.count(e))
-					continue;
-				live.push_back(e);
-				if (!DependencyGraph::GetChildren(o).empty())
-					liveParents.push_back(e);
-			}
-		}
+		/* objects believed to exist, and those among them other objects are believed to depend on */
+		std::vector<GKey> live(g.live.begin(), g.live.end()), liveParents;
+		for (auto& l : live)
+			if (!g.Dependents(l).empty())
+				liveParents.push_back(l);
 		if (k < 30 && !liveParents.empty()) {
 			auto& a = liveParents[r.below(liveParents.size())];
 			type = a.first;
@@ -1819,8 +2298,7 @@ static void GenCase(Rng& r, long long n)
 			type = a.first;
 			name = a.second;
 		} else if (k < 90) {
-			std::vector<std::pair<std::string, std::string>> st(l_Static.begin(), l_Static.end());
-			auto& s = st[r.below(st.size())];
+			auto& s = GenStatic()[r.below(GenStatic().size())];
 			type = s.first;
 			name = s.second;
 		} else {
@@ -1830,6 +2308,7 @@ static void GenCase(Rng& r, long long n)
 		bool cascade = r.below(100) < 45;
 		bool wantHttp = r.below(100) < 13;
 		OpDelete(type, name, cascade, wantHttp);
+		g.BelieveDelete(GKey(type, name), cascade);
 	}
 }
 
@@ -1909,6 +2388,26 @@ static long long Prelude()
 	OpDelete("Host", "wh", true, true);
 	OpDelete("Host", "wh", true, true);
 
+	/* F-C17f: a deleted service stays in its host's service map; the comment attaches to it (and is taken away again) */
+	OpCase(++n);
+	OpCreate("Service", "sh!zw", false, none, J(R"({"check_command":"scc"})"));
+	OpDelete("Service", "sh!zw", false);
+	OpCreate("Comment", "sh!zw!c", false, none, J(R"({"author":"me","text":"on a deleted service"})"));
+
+	/* hosts matched by the static apply rules */
+	OpCase(++n);
+	OpCreate("Host", "ap1", false, none, J(R"({"check_command":"scc","vars":{"c17_apply":true}})"));
+	OpCreate("Host", "ap2", false, none, J(R"({"check_command":"scc","vars":{"c17_apply":true,"c17_cmd":"scc","c17_notify":true}})"));
+	OpCreate("Host", "ap3", false, none, J(R"({"check_command":"scc","vars":{"c17_apply":true,"c17_cmd":"nosuch-cmd"}})"));
+	OpCreate("Host", "ap3", false, none, J(R"({"check_command":"scc","vars":{"c17_apply":true}})"));
+	OpCreate("Host", "ap4", false, none, J(R"({"check_command":"scc","vars":{"c17_notify":true}})"), true);
+	OpDelete("Host", "ap1", false);
+	OpDelete("Service", "ap2!c17-ap-ok", false);
+	OpDelete("Host", "ap1", true);
+	OpDelete("Host", "ap2", true, true);
+	OpCreate("Host", "ap1", false, none, J(R"({"check_command":"scc","vars":{"c17_apply":true,"c17_cmd":"nosuch-cmd"}})"), true);
+	OpCreate("Host", "ap1", false, none, J(R"({"check_command":"scc"})"));
+
 	/* one create each: attributes which re-route the object, and a composite name with an empty part */
 	OpCase(++n);
 	OpCreate("Host", "r1", false, none, J(R"({"check_command":"scc","__name":"renamed"})"));
@@ -1935,21 +2434,47 @@ static void PrintTypes()
 	}
 }
 
-int main(int argc, char **argv)
+static int WorkerMain()
 {
-	if (argc < 2) { fprintf(stderr, "usage: h_c17 gen --seed S --tier quick|thorough | ops FILE\n"); return 2; }
-	std::string mode = argv[1];
-	if (mode != "gen" && mode != "ops") { fprintf(stderr, "unknown mode\n"); return 2; }
-	if (mode == "ops" && argc < 3) { fprintf(stderr, "ops needs a file\n"); return 2; }
-
-	Setup();
-	int rcode = 0;
-
+	SetupBase();
+	SetupWorker();
 	{
 		std::string s1 = GlobHash(), s2 = GlobHash();
 		if (s1 != s2)
 			Die("global hash unstable");
 	}
+	printf("D %s\n.\n", l_DataDir.c_str());
+	fflush(stdout);
+
+	std::string line;
+	while (std::getline(std::cin, line)) {
+		ExecLine(line);
+		fputs(".\n", stdout);
+		fflush(stdout);
+	}
+
+	Cleanup();
+	Teardown();
+	fflush(stdout);
+	_exit(0);
+}
+
+int main(int argc, char **argv)
+{
+	if (argc < 2) { fprintf(stderr, "usage: h_c17 gen --seed S --tier quick|thorough [--cases N] [--batch N] | ops FILE\n"); return 2; }
+	std::string mode = argv[1];
+	if (mode == "worker")
+		return WorkerMain();
+	if (mode != "gen" && mode != "ops") { fprintf(stderr, "unknown mode\n"); return 2; }
+	if (mode == "ops" && argc < 3) { fprintf(stderr, "ops needs a file\n"); return 2; }
+
+	signal(SIGPIPE, SIG_IGN);
+	SetupBase(); /* type information only: the parent executes no operation */
+	l_Flush = getenv("VERIF_C17_FLUSH") != nullptr;
+	l_Batch = atoi(argOr(argc, argv, "--batch", "60"));
+	if (l_Batch < 1)
+		l_Batch = 1;
+	int rcode = 0;
 
 	PrintTypes();
 
@@ -1971,22 +2496,25 @@ int main(int argc, char **argv)
 			rcode = 2;
 		} else {
 			std::string line;
-			while (std::getline(in, line))
-				ExecLine(line);
+			while (std::getline(in, line)) {
+				std::string op = OpPart(line);
+				if (!op.empty())
+					Submit(op);
+			}
 		}
 	}
 
-	Cleanup();
+	StopWorker();
 	fflush(stdout);
 
-	fprintf(stderr, "STATS http_ops=%ld\n", l_NHttp);
-	fprintf(stderr, "STATS cases=%ld creates=%ld deletes=%ld del_ok=%ld del_refused=%ld del_missing=%ld del_exc=%ld\n",
-		l_NCases, l_NCreate, l_NDelete, l_NDelOk, l_NDelRefused, l_NDelMissing, l_NDelExc);
-	for (auto& kv : l_Stat)
+	fprintf(stderr, "STATS http_ops=%ld auto_deletes=%ld apply_host_ok=%ld apply_host_failed=%ld x_lines=%ld\n", l_PHttp, l_PAuto, l_PApplyOk,
+		l_PApplyFail, l_PX);
+	fprintf(stderr, "STATS cases=%ld creates=%ld deletes=%ld del_ok=%ld del_refused=%ld del_missing=%ld del_other=%ld\n",
+		l_PCases, l_PCreate, l_PDelete, l_PDel[0], l_PDel[1], l_PDel[2], l_PDel[3]);
+	for (auto& kv : l_PStat)
 		fprintf(stderr, "STATS type=%s created=%ld refused=%ld exception=%ld cfg_refused=%ld ok_but_absent=%ld\n", kv.first.c_str(),
 			kv.second[0], kv.second[1], kv.second[2], kv.second[3], kv.second[4]);
 
-	Teardown();
 	fflush(stdout);
 	_exit(rcode);
 }
